@@ -257,6 +257,11 @@ pub proof fn lemma_blen_monotone(s: Seq<char>, i: int, j: int)
     lemma_encode_utf8_len_strictly_monotonic(s, i, j);
 }
 
+// TRUSTED[string-from-str]: `String::from(&str)` / `<&str>::into()` copies the text (std: `impl From<&str> for String` is `to_owned`).
+pub axiom fn axiom_string_from_str()
+    ensures <String as vstd::std_specs::convert::FromSpec<&'static str>>::obeys_from_spec(),
+        forall|s: &'static str| (#[trigger] <String as vstd::std_specs::convert::FromSpec<&'static str>>::from_spec(s))@ == s@;
+
 pub broadcast group group_trusted_strings {
     axiom_string_eq_str_obeys, axiom_string_eq_str, axiom_string_eq_refstr_obeys, axiom_string_eq_refstr,
     axiom_pattern_text_str, axiom_pattern_text_string, axiom_pattern_text_char, axiom_str_len_fits,
